@@ -153,7 +153,7 @@ func buildC03World(r *rt.Rand, gs *gateSet) (*World, []string) {
 			}
 			mk(fmt.Sprintf("f%d_%d", p, i), eventlogger.NodeTypeFilter, [4]int{r.Range(1, 4), r.Intn(2), r.Intn(2), r.Intn(2)})
 		}
-		mk(fmt.Sprintf("m%d", p), eventlogger.NodeTypeFormatter, [4]int{4, 1, 0, r.Intn(2)})
+		mk(fmt.Sprintf("m%d", p), eventlogger.NodeTypeFormatter, [4]int{4, 1, r.Intn(2), r.Intn(2)}) // a formatter may hand back (nil, nil) like any other node
 		mk(fmt.Sprintf("k%d", p), eventlogger.NodeTypeSink, [4]int{r.Intn(2), 0, 3, r.Intn(2)})
 		out := w.Apply(Op{Kind: "regpipe", Type: "t0", Pid: fmt.Sprintf("p%d", p), IDs: ids}, plainStyle)
 		if out.Mismatch != "" {
